@@ -201,12 +201,12 @@ class PtyEnv:
             out += scan[pos : m.start()]
             pos = m.end()
             g = m.groups()
-            if g[7] is not None:  # sync marker: not part of the captured stream
+            if g[6] is not None:  # sync marker: not part of the captured stream
                 with self._cv:
                     if self.capturing:
                         self.cap += out
                     out = bytearray()
-                    self._sync_seen = int(g[7])
+                    self._sync_seen = int(g[6])
                     self._cv.notify_all()
                 continue
             out += m.group()  # queries stay in the captured stream
@@ -225,8 +225,8 @@ class PtyEnv:
             elif g[4] is not None:
                 keys = dict(kv.split(b"=", 1) for kv in g[4].split(b",") if b"=" in kv)
                 self._answer("kitty", keys.get(b"i", b"0"))
-            elif g[8] is not None:
-                self._answer("id", g[8])
+            elif g[7] is not None:
+                self._answer("id", g[7])
         # keep a possibly incomplete sequence for the next round
         rest = scan[pos:]
         k = rest.rfind(b"\x1b")
